@@ -385,6 +385,29 @@ def gen_triangle(rnd, d, unit, lo, hi):
     return rows
 
 
+def gen_nested_pair(rnd):
+    """a straight outer triangle and a quadratic inner triangle STRICTLY inside it whose bottom edge bulges towards the outer edge y = 0:
+    the middle control point of that edge lies outside the outer triangle and outside the bounding box of the outer control net, the edge
+    itself (Bernstein coefficients h, -e, h of its height with 0 < e < h: positive on [0, 1]) stays inside.  No edge meets an edge, so the
+    answer is decided by the containment probe alone - and must not depend on the order of the arguments (seed C17_g).  Coordinates are
+    multiples of 3/4 so that the elevated presentation is exactly representable."""
+    L = rnd.choice([16, 24])
+    h = Fr(rnd.choice([1, 2]), 2)
+    x0 = Fr(rnd.randint(2, 4))
+    x1 = x0 + rnd.randint(2, 4)
+    e = h * Fr(rnd.choice([1, 2, 3]), 4)
+    top = (x0 + (x1 - x0) / 2 + Fr(rnd.randint(-1, 1), 2), h + rnd.randint(2, 3))
+    p0, p1 = (x0, h), (x1, h)
+    pts = [p0, ((x0 + x1) / 2, -e), p1, ((p0[0] + top[0]) / 2, (p0[1] + top[1]) / 2), ((p1[0] + top[0]) / 2, (p1[1] + top[1]) / 2), top]
+    inner = [[3 * q[0] for q in pts], [3 * q[1] for q in pts]]
+    outer = [[Fr(0), Fr(3 * L), Fr(0)], [Fr(0), Fr(0), Fr(3 * L)]]
+    d_out = 1
+    if rnd.random() < 0.5:
+        outer = [X.tri_elevate_exact(r, 1) for r in outer]
+        d_out = 2
+    return inner, 2, outer, d_out
+
+
 def tri_presentations(t1, d1, t2, d2, shift):
     def tr(n):
         return [[x + shift[0] for x in n[0]], [y + shift[1] for y in n[1]]]
@@ -771,6 +794,20 @@ def main():
         t2 = valid_triangle(d2, unit)
         shift = [Fr(rnd.randint(-64, 64), 8), Fr(rnd.randint(-64, 64), 8)]
         run_triangle_pair({"kind": "triangles", "t1": C.jfr(t1), "t2": C.jfr(t2), "d1": d1, "d2": d2, "shift": [str(x) for x in shift]})
+    # nested pairs decided by the containment probe (no edge meets an edge), the inner control net leaving the outer one's box
+    for k in range(40 if thorough else 10):
+        inner, di, outer, do = gen_nested_pair(rnd)
+        try:
+            if not bezier.Triangle(C.farr(inner), di, copy=False).is_valid:
+                res.skip("generator:invalid-triangle-rejected")
+                continue
+        except ValueError:
+            res.skip("generator:invalid-triangle-rejected")
+            continue
+        shift = [Fr(rnd.randint(-64, 64), 8), Fr(rnd.randint(-64, 64), 8)]
+        t1, d1, t2, d2 = (inner, di, outer, do) if k % 2 else (outer, do, inner, di)
+        run_triangle_pair({"kind": "triangles", "family": "nested-protruding", "t1": C.jfr(t1), "t2": C.jfr(t2), "d1": d1, "d2": d2,
+                           "shift": [str(x) for x in shift]})
     res.notes.append("triangles: %.1fs" % (time.time() - t_tri))
     res.notes.append("curve pairs %(pairs)d, judged (>=1 claimed point) %(judged_pairs)d, pooled points %(pooled_points)d, claimed points %(claimed_points)d, "
                      "presentations exercised %(presentations)d (%(calls)d library calls, %(raised)d raised); triangle pairs %(tri_pairs)d, judged %(tri_judged)d, "
